@@ -21,6 +21,8 @@ Open Scope Z_scope.
 (* wallet types *)
 Definition TDet : Z := 0.          (* "deterministic" *)
 Definition TColl : Z := 1.         (* "collection": no seed, no fingerprint *)
+Definition TBip : Z := 2.          (* "bip44": external chain (w_n) and change chain (w_c) of account 0 *)
+Definition TXpub : Z := 3.         (* "xpub": one chain derived from an extended public key (w_seed = id of the key) *)
 
 Record wallet : Type := mkW {
   w_name : string;    (* file name = wallet id *)
@@ -29,8 +31,16 @@ Record wallet : Type := mkW {
   w_label : Z;        (* id of the label; 0 = empty *)
   w_enc : bool;
   w_pw : Z;           (* id of the password when encrypted, else 0 *)
-  w_n : Z;            (* number of entries *)
+  w_n : Z;            (* number of entries (bip44: on the external chain) *)
+  w_c : Z;            (* bip44: number of entries on the change chain; else 0 *)
   w_temp : bool }.
+
+Definition set_label (w : wallet) (l : Z) : wallet :=
+  mkW (w_name w) (w_type w) (w_seed w) l (w_enc w) (w_pw w) (w_n w) (w_c w) (w_temp w).
+Definition set_enc (w : wallet) (e : bool) (pw : Z) : wallet :=
+  mkW (w_name w) (w_type w) (w_seed w) (w_label w) e pw (w_n w) (w_c w) (w_temp w).
+Definition set_counts (w : wallet) (n c : Z) : wallet :=
+  mkW (w_name w) (w_type w) (w_seed w) (w_label w) (w_enc w) (w_pw w) n c (w_temp w).
 
 (* Wallet.Fingerprint(): type + first address, i.e. a function of type and
    seed; 0 = "" (collection wallets have none) *)
@@ -47,8 +57,8 @@ Definition init : st := mkSt [] [] [] [].
 
 Inductive op : Type :=
 | Create (name : string) (typ seed label : Z) (enc : bool) (pw n : Z) (temp dfail : bool)
-| NewAddr (name : string) (pw n : Z) (dfail : bool)
-| Scan (name : string) (pw num : Z) (dfail : bool)
+| NewAddr (name : string) (pw n : Z) (chg : bool) (dfail : bool)   (* chg: wallet.OptionChange() *)
+| Scan (name : string) (pw num ea ca : Z) (dfail : bool)   (* ea / ca: activity on the external / change chain *)
 | SetLabel (name : string) (label : Z) (dfail : bool)
 | Encrypt (name : string) (pw : Z) (dfail : bool)
 | Decrypt (name : string) (pw : Z) (dfail : bool)
@@ -113,19 +123,32 @@ Definition unloaded_file_has_fp (s : st) (f : Z) (skip : string) : bool :=
                     | None => true
                     end && (fp x =? f)) (disk s).
 
+(* Create: the validation done by the creator of each wallet type, in the
+   order of the code; None = the wallet is constructed *)
+Definition create_check (typ seed label : Z) (enc : bool) (pw : Z) (temp : bool) : err :=
+  if typ =? TXpub then
+    if enc then E "EXpubNoEncrypt"                       (* validateOptions *)
+    else if seed =? 0 then E "ErrMissingXPub" else None  (* no label check for xpub wallets *)
+  else if negb ((typ =? TDet) || (typ =? TColl) || (typ =? TBip)) then E "ErrInvalidWalletType"
+  else if label =? 0 then E "ErrMissingLabel"
+  else if negb (typ =? TColl) && (seed =? 0) then E "ErrMissingSeed"
+  else if enc && temp then E "ErrEncryptTempWallet"
+  else if enc && (pw =? 0) then (if typ =? TBip then E "EBip44MissingPassword" else E "ErrMissingPassword")
+  else None.   (* a password without encrypt is ignored: the creators only pass it on when Encrypt is set *)
+
+(* number of addresses a scan keeps on one chain: up to the last address with
+   activity among the num scanned ones (act = index + 1 of that address, 0 = none) *)
+Definition keep (num act : Z) : Z := if num =? 0 then 0 else Z.min act num.
+
 Definition step_gen (scan : bool) (s : st) (o : op) : st * err :=
   match o with
   | Create name typ seed label enc pw n temp dfail =>
-      (* createWallet: creator lookup, then the creator's own validation *)
-      if negb ((typ =? TDet) || (typ =? TColl)) then (s, E "ErrInvalidWalletType")
-      else if label =? 0 then (s, E "ErrMissingLabel")
-      else if (typ =? TDet) && (seed =? 0) then (s, E "ErrMissingSeed")
-      else if enc && temp then (s, E "ErrEncryptTempWallet")
-      else if enc && (pw =? 0) then (s, E "ErrMissingPassword")
-      (* a password without encrypt is ignored: the creators only pass it on when Encrypt is set *)
-      else
+      match create_check typ seed label enc pw temp with
+      | Some e => (s, Some e)
+      | None =>
         let w := mkW name typ (if typ =? TColl then 0 else seed) label enc (if enc then pw else 0)
-                     (if typ =? TColl then 0 else if n =? 0 then 1 else n) temp in
+                     (if typ =? TColl then 0 else if n =? 0 then 1 else n)
+                     (if typ =? TBip then 1 else 0) temp in
         let f := fp w in
         if negb (f =? 0) && has_fp f (fps s) then (s, E "ErrFingerprintConflict")
         else if scan && negb (f =? 0) && negb temp && dfail then (s, E "EDisk")     (* ReadDir of the scan fails *)
@@ -142,43 +165,50 @@ Definition step_gen (scan : bool) (s : st) (o : op) : st * err :=
                            (if temp then unloaded s else del_str name (unloaded s)), None)
                  end
              end
-  | NewAddr name pw n dfail =>
+      end
+  | NewAddr name pw n chg dfail =>
       match find name (mem s) with
       | None => (s, E "ErrWalletNotExist")
       | Some w =>
-          match guard_pw w pw with
+          (* an encrypted bip44 wallet derives addresses from public keys: no password check at all *)
+          match (if (w_type w =? TBip) && w_enc w then None else guard_pw w pw) with
           | Some e => (s, Some e)
           | None =>
-              let w' := mkW (w_name w) (w_type w) (w_seed w) (w_label w) (w_enc w) (w_pw w)
-                            (if w_type w =? TColl then w_n w else w_n w + n) (w_temp w) in
+              let w' := if w_type w =? TColl then w
+                        else if (w_type w =? TBip) && chg then set_counts w (w_n w) (w_c w + n)
+                        else set_counts w (w_n w + n) (w_c w) in
               commit s w' dfail
           end
       end
-  | Scan name pw num dfail =>
+  | Scan name pw num ea ca dfail =>
       match find name (mem s) with
       | None => (s, E "ErrWalletNotExist")
       | Some w =>
+          if w_type w =? TBip then
+            if negb (pw =? 0) then (s, E "EBip44ScanPassword")
+            else commit s (set_counts w (w_n w + keep num ea) (w_c w + keep num ca)) dfail
+          else
           match guard_pw w pw with
           | Some e => (s, Some e)
           | None =>
               if w_type w =? TColl then (s, E "ENoScan")
-              else commit s w dfail          (* no address with activity: nothing is kept, the wallet is saved *)
+              else commit s (set_counts w (w_n w + keep num ea) (w_c w)) dfail
           end
       end
   | SetLabel name label dfail =>
       match find name (mem s) with
       | None => (s, E "ErrWalletNotExist")
-      | Some w =>
-          commit s (mkW (w_name w) (w_type w) (w_seed w) label (w_enc w) (w_pw w) (w_n w) (w_temp w)) dfail
+      | Some w => commit s (set_label w label) dfail
       end
   | Encrypt name pw dfail =>
       match find name (mem s) with
       | None => (s, E "ErrWalletNotExist")
       | Some w =>
           if w_enc w then (s, E "ErrWalletEncrypted")
+          else if w_type w =? TXpub then (s, E "EXpubNoEncrypt")
           else if w_temp w then (s, E "ErrEncryptTempWallet")
           else if pw =? 0 then (s, E "ErrMissingPassword")
-          else commit s (mkW (w_name w) (w_type w) (w_seed w) (w_label w) true pw (w_n w) (w_temp w)) dfail
+          else commit s (set_enc w true pw) dfail
       end
   | Decrypt name pw dfail =>
       match find name (mem s) with
@@ -187,19 +217,19 @@ Definition step_gen (scan : bool) (s : st) (o : op) : st * err :=
           if negb (w_enc w) then (s, E "ErrWalletNotEncrypted")
           else if pw =? 0 then (s, E "ErrMissingPassword")
           else if negb (pw =? w_pw w) then (s, E "ErrInvalidPassword")
-          else commit s (mkW (w_name w) (w_type w) (w_seed w) (w_label w) false 0 (w_n w) (w_temp w)) dfail
+          else commit s (set_enc w false 0) dfail
       end
   | Recover name seed pw dfail =>
       match find name (mem s) with
       | None => (s, E "ErrWalletNotExist")
       | Some w =>
           if negb (w_enc w) then (s, E "ErrWalletNotEncrypted")
-          else if negb (w_type w =? TDet) then (s, E "ErrWalletTypeNotRecoverable")
+          else if negb ((w_type w =? TDet) || (w_type w =? TBip)) then (s, E "ErrWalletTypeNotRecoverable")
           (* the comparison wallet is created with the old label and the given seed:
              an empty label or seed makes that creation fail *)
           else if (w_label w =? 0) || (seed =? 0) then (s, E "ERecoverCreate")
           else if negb (fp_of (w_type w) seed =? fp w) then (s, E "ErrWalletRecoverSeedWrong")
-          else commit s (mkW (w_name w) (w_type w) seed (w_label w) (negb (pw =? 0)) pw (w_n w) false) dfail
+          else commit s (mkW (w_name w) (w_type w) seed (w_label w) (negb (pw =? 0)) pw (w_n w) (w_c w) false) dfail
       end
   | Unload name =>
       match find name (mem s) with
@@ -217,7 +247,7 @@ Definition step_gen (scan : bool) (s : st) (o : op) : st * err :=
           | Some e => (s, Some e)
           | None =>
               if negb fok then (s, E "EFn")
-              else commit s (mkW (w_name w) (w_type w) (w_seed w) label (w_enc w) (w_pw w) (w_n w) (w_temp w)) dfail
+              else commit s (set_label w label) dfail
           end
       end
   | Upd name fok label dfail =>
@@ -225,7 +255,7 @@ Definition step_gen (scan : bool) (s : st) (o : op) : st * err :=
       | None => (s, E "ErrWalletNotExist")
       | Some w =>
           if negb fok then (s, E "EFn")
-          else commit s (mkW (w_name w) (w_type w) (w_seed w) label (w_enc w) (w_pw w) (w_n w) (w_temp w)) dfail
+          else commit s (set_label w label) dfail
       end
   end.
 
@@ -263,7 +293,7 @@ Definition name_ok (n : string) : bool := suffixb "wlt" n.
 Definition reload (d : list wallet) : reloaded :=
   let v := filter (fun w => name_ok (w_name w)) d in
   if negb (nodup_fps [] v) then RAbort
-  else if existsb (fun w => negb (w_type w =? TColl) && (w_n w <=? 0)) v then RAbort
+  else if existsb (fun w => negb (w_type w =? TColl) && (w_n w + w_c w <=? 0)) v then RAbort
   else RLoaded v.
 
 (* domain of the theorems: counts are not negative (uint64 in the code) and
@@ -273,7 +303,8 @@ Definition reload (d : list wallet) : reloaded :=
 Definition wf_op (o : op) : bool :=
   match o with
   | Create name _ _ _ _ _ n _ _ => name_ok name && (0 <=? n)
-  | NewAddr _ _ n _ => 0 <=? n
+  | NewAddr _ _ n _ _ => 0 <=? n
+  | Scan _ _ num ea ca _ => (0 <=? num) && (0 <=? ea) && (0 <=? ca)
   | _ => true
   end.
 
@@ -282,7 +313,7 @@ Definition wf_op (o : op) : bool :=
 Definition eqb_wallet (a b : wallet) : bool :=
   String.eqb (w_name a) (w_name b) && (w_type a =? w_type b) && (w_seed a =? w_seed b) &&
   (w_label a =? w_label b) && Bool.eqb (w_enc a) (w_enc b) && (w_pw a =? w_pw b) &&
-  (w_n a =? w_n b) && Bool.eqb (w_temp a) (w_temp b).
+  (w_n a =? w_n b) && (w_c a =? w_c b) && Bool.eqb (w_temp a) (w_temp b).
 
 (* memory without temporary wallets *)
 Definition non_temp (l : list wallet) : list wallet := filter (fun w => negb (w_temp w)) l.
